@@ -43,3 +43,34 @@ def run_walker(c, argv_fn, what, max_restarts=12, timeout=1500):
                     {"kind": "crash", "argv": argv, "case": int(m.group(2)), "desc": m.group(4), "stderr": (err or "")[-3000:]})
         skip.append(int(m.group(2)))
     return totals
+
+
+def run_cases(c, binary, mode, infile, outfile, what, max_restarts=40, timeout=1800, extra=None):
+    """file-driven harness mode with crash recovery: '<binary> <mode> <infile> <outfile> <from>'.
+    Every crashing / hanging case becomes a violation (signature: what + sanitizer summary + case description)
+    and the run resumes at the next case.  Returns the number of crashes."""
+    start = 0
+    crashes = 0
+    if os.path.exists(outfile):
+        os.remove(outfile)
+    for attempt in range(max_restarts + 1):
+        argv = [binary, mode, infile, outfile, str(start)] + (extra or [])
+        rc, out, err = c.run(argv, timeout=timeout)
+        lines = out.strip().splitlines()
+        if lines and lines[-1] == "DONE":
+            return crashes
+        m = None
+        for ln in reversed(lines):
+            m = re.match(r"(CRASH|HANG) (-?\d+) (-?\d+) ?(.*)", ln)
+            if m:
+                break
+        if not m:
+            c.harness_ok(what, rc, out, err, {"argv": argv})
+            return crashes + 1
+        san = re.search(r"(AddressSanitizer|UndefinedBehaviorSanitizer|runtime error|LeakSanitizer)[^\n]*", err or "")
+        kind = "HANG" if m.group(1) == "HANG" else (re.sub(r"0x[0-9a-f]+", "0x", san.group(0))[:110] if san else "signal %s" % m.group(3))
+        c.violation("%s %s: %s | %s" % (what, m.group(1), kind, m.group(4)[:300]),
+                    {"kind": "crash", "argv": argv, "case": int(m.group(2)), "desc": m.group(4), "stderr": (err or "")[-3000:]})
+        crashes += 1
+        start = int(m.group(2)) + 1
+    return crashes
